@@ -5031,7 +5031,11 @@ class PyCdlib:
 
             (udf_name, udf_parent) = self._udf_name_and_parent_from_path(udf_path_bytes)
 
-            num_extents_to_remove = udf_parent.remove_file_ident_desc_by_name(udf_name,
+            # The File Identifier stores the name in its on-disk encoding, so
+            # look it up by the UTF-8 name we were given first.
+            udf_ident = udf_parent.find_file_ident_desc_by_name(udf_name)
+
+            num_extents_to_remove = udf_parent.remove_file_ident_desc_by_name(udf_ident.fi,
                                                                               self.logical_block_size)
             # Remove space (if necessary) in the parent File Identifier
             # Descriptor area.
